@@ -60,6 +60,33 @@ def run(d, ids, tier='quick'):
     rc, out = sh(['git', '-C', REPO, 'status', '--porcelain', '--untracked-files=no'])
     assert out.strip() == '', '/repo is not clean: ' + out
     results = {}
+    locks = os.path.join(VERIF, 'work', 'locks')
+    os.makedirs(locks, exist_ok=True)
+    mut = os.path.join(locks, 'mutation')
+    # one mutation at a time; then wait for the checks other workers have in flight (see runner.courtesy_lock)
+    while True:
+        try:
+            holder = int(open(mut).read().strip() or '0')
+            os.kill(holder, 0)
+            time.sleep(2)
+        except Exception:
+            break
+    open(mut, 'w').write(str(os.getpid()))
+    ENV['VERIF_MUTANT'] = '1'
+    t0 = time.time()
+    while time.time() - t0 < 3600:
+        busy = False
+        for f in os.listdir(locks):
+            if f.startswith('check.'):
+                try:
+                    os.kill(int(f.split('.')[1]), 0)
+                    busy = True
+                except Exception:
+                    try: os.remove(os.path.join(locks, f))
+                    except OSError: pass
+        if not busy:
+            break
+        time.sleep(2)
     try:
         rc, out = sh(['git', '-C', REPO, 'apply', os.path.join(d, 'patch.diff')])
         assert rc == 0, out
@@ -76,6 +103,8 @@ def run(d, ids, tier='quick'):
             print(pid, 'exit', rc, viol[:1])
     finally:
         sh(['git', '-C', REPO, 'checkout', '--', '.'])
+        try: os.remove(mut)
+        except OSError: pass
     rc, out = sh(['git', '-C', REPO, 'status', '--porcelain', '--untracked-files=no'])
     assert out.strip() == '', '/repo not restored: ' + out
     p = os.path.join(d, 'result.json')
